@@ -2,6 +2,9 @@
 // (a) explicit-state BFS over API histories (create / shape / label / justify / destroy in every order that respects
 //     ownership) on a memory face whose get_table hands out fresh exact-size copies and tracks outstanding borrows;
 // (b) environment deviations: every table x {absent, length 0, length 3} x {release fn, no release fn} x options.
+#include <dirent.h>
+#include <sys/stat.h>
+#include <unistd.h>
 #include "common/corpus.hpp"
 #include "common/segcheck.hpp"
 #include <deque>
@@ -149,10 +152,40 @@ static void setup_reject(Runner &r, const Tier &) {
         if (why) { JObj o; o.kv("font", c.font).kv("face_options", c.opts).kv("release_fn", !c.no_release).kv("kind", "borrow_discipline").kv("why", why); report_fail(ci, o); }
         ctl.cls(hash_str(c.font) + c.opts * 2 + c.no_release); };
 }
+
+// ---- the built-in file face (gr_make_file_face): the table reader is the library's own, so the observable contract is resource balance:
+// after gr_face_destroy (or a failed creation) no allocation and no file descriptor is left, whatever was done with the face in between
+static int open_fds() { int n = 0; if (DIR *d = opendir("/proc/self/fd")) { while (readdir(d)) ++n; closedir(d); } return n; }
+struct FF { std::string file; unsigned opts; int variant; }; static std::vector<FF> g_ff; static std::string g_ffdir;
+static void setup_fileface(Runner &r, const Tier &t) {
+    g_ff.clear(); std::vector<std::string> fonts = { gen_dir() + "/s_full.ttf", gen_dir() + "/s_full_z.ttf", gen_dir() + "/s_full_badglyph.ttf", font_path("small.ttf"), font_path("Padauk.ttf") }; if (t.thorough) { fonts.push_back(font_path("Awami_compressed_test.ttf")); fonts.push_back(font_path("charis_r_gr.ttf")); }
+    // variants: 0 the file as it is; 1..4 the file cut to 3/4, 1/2, 12 bytes, 0 bytes; 5 a path that does not exist
+    for (auto &f : fonts) for (unsigned o = 0; o < 8; ++o) for (int v = 0; v <= 5; ++v) g_ff.push_back({ f, o, v });
+    g_ffdir = (getenv("VERIF_WORK") ? std::string(getenv("VERIF_WORK")) : std::string("/verif/build/work")) + "/c16_files"; mkdir(g_ffdir.c_str(), 0755);
+    r.ncases = g_ff.size(); r.case_alarm_s = 120;
+    r.describe = [](uint64_t i) { const FF &c = g_ff[i]; static const char *vn[6] = { "whole file", "cut to 3/4", "cut to 1/2", "cut to 12 bytes", "empty file", "missing file" }; JObj o; o.kv("api", "gr_make_file_face").kv("font", c.file).kv("face_options", c.opts).kv("file", vn[c.variant]).kv("what", "create, shape 4 texts, all label / feature queries, destroy; allocation and descriptor balance"); return o; };
+    r.body = [](uint64_t ci, ShardCtl &ctl) { const FF &c = g_ff[ci]; static char path[512];
+        if (c.variant == 0) snprintf(path, sizeof path, "%s", c.file.c_str()); else if (c.variant == 5) snprintf(path, sizeof path, "%s/does-not-exist-%llu.ttf", g_ffdir.c_str(), (unsigned long long)ci);
+        else { snprintf(path, sizeof path, "%s/cut-%llu.ttf", g_ffdir.c_str(), (unsigned long long)ci); FILE *in = fopen(c.file.c_str(), "rb"); if (!in) return; fseek(in, 0, SEEK_END); long n = ftell(in); fseek(in, 0, SEEK_SET); long keep = c.variant == 1 ? n * 3 / 4 : c.variant == 2 ? n / 2 : c.variant == 3 ? 12 : 0;
+            static char buf[1 << 16]; FILE *out = fopen(path, "wb"); if (!out) { fclose(in); return; } long left = keep; while (left > 0) { size_t k = fread(buf, 1, size_t(left < long(sizeof buf) ? left : long(sizeof buf)), in); if (!k) break; fwrite(buf, 1, k, out); left -= long(k); } fclose(in); fclose(out); }
+        int fd0 = open_fds(); size_t bal0 = allocated_bytes(); const char *why = nullptr; bool loaded = false;
+        { gr_face *f = gr_make_file_face(path, c.opts); ctl.counters[0] = ctl.counters[0] + 1;
+          if (f) { loaded = true; ctl.counters[1] = ctl.counters[1] + 1; gr_font *font = gr_make_font(11.f, f);
+              for (const char *t : { "ab c", "a\xCC\x81", "fe", "" }) for (int d = 0; d < 2; ++d) { gr_segment *sg = gr_make_seg(d ? font : nullptr, f, 0, nullptr, gr_utf8, t, strlen(t), d); if (sg) gr_seg_destroy(sg); }
+              for (unsigned k = 0; k < gr_face_n_fref(f) && k < 4; ++k) { uint16_t l = 0x409; uint32_t n = 0; void *lab = gr_fref_label(gr_face_fref(f, uint16_t(k)), &l, gr_utf8, &n); if (lab) gr_label_destroy(lab); }
+              gr_feature_val *fv = gr_face_featureval_for_lang(f, 0); gr_featureval_destroy(fv); if (font) gr_font_destroy(font); gr_face_destroy(f); } }
+        size_t bal1 = allocated_bytes(); int fd1 = open_fds();
+        if (bal1 != bal0) why = loaded ? "memory still allocated after gr_face_destroy of a file face" : "memory still allocated after a failed gr_make_file_face";
+        else if (fd1 != fd0) why = "file descriptor left open";
+        if (c.variant != 0 && c.variant != 5) unlink(path);
+        if (why) { JObj o; o.kv("api", "gr_make_file_face").kv("font", c.file).kv("face_options", c.opts).kv("file_variant", c.variant).kv("kind", "resource_balance").kv("why", why).kv("bytes", (long long)(bal1 - bal0)).kv("descriptors", fd1 - fd0); report_fail(ci, o); }
+        ctl.cls(hash_str(c.file) + c.opts * 8 + c.variant + (loaded ? 1000 : 0)); };
+}
 int main(int argc, char **argv) {
     std::vector<Sub> subs;
     { Sub s; s.name = "history_bfs"; s.setup = setup_bfs; s.budget_quick = 140; s.budget_thorough = 1100; s.counter_names = { "states", "transitions" }; s.extra = extra_bfs; subs.push_back(s); }
     { Sub s; s.name = "env_deviation"; s.setup = setup_dev; s.budget_quick = 60; s.budget_thorough = 300; s.counter_names = { "loads", "rejected" }; subs.push_back(s); }
     { Sub s; s.name = "rejecting_fonts"; s.setup = setup_reject; s.budget_quick = 60; s.budget_thorough = 120; s.counter_names = { "face_creations", "loaded" }; subs.push_back(s); }
+    { Sub s; s.name = "file_face"; s.setup = setup_fileface; s.budget_quick = 60; s.budget_thorough = 120; s.counter_names = { "face_creations", "loaded" }; subs.push_back(s); }
     return check_main(argc, argv, "C16", subs);
 }
